@@ -2293,9 +2293,11 @@ func main() {
 	dfCases, dfEvals := familyDecodeFrom(chk)
 	mlCases := familyMemberless(chk)
 	piCases := familyPlatformInts(chk)
+	c2Cases := familyCall2(chk)
 	cov := map[string]interface{}{
+		"proxy_call2":             map[string]interface{}{"cases": c2Cases, "what": "Proxy.Call2 (bus/proxy.go) against a canned client whose reply is the encoding of a value of the REMOTE return type: identical and renamed structures, members in another order (floats, ints, widened ints, strings; alone, in a list, in a map, nested, at the outer level): the caller's value holds, member by member name, what the reply held"},
 		"platform_sized_integers": map[string]interface{}{"cases": piCases, "what": "Go's int and uint (64 bits on this platform) as source and destination next to the sized kinds of the same signedness, alone and in slices, maps and structs, boundary values, both directions"},
-		"memberless_structs": map[string]interface{}{"cases": mlCases, "what": "struct types without members (struct{}, the set idiom map[K]struct{}, marker members) alone, in slices, maps and structs: conversion into the same / widened type succeeds, the way back recovers the source"},
+		"memberless_structs":      map[string]interface{}{"cases": mlCases, "what": "struct types without members (struct{}, the set idiom map[K]struct{}, marker members) alone, in slices, maps and structs: conversion into the same / widened type succeeds, the way back recovers the source"},
 		"decode_from_histories": map[string]interface{}{"histories": dfCases, "calls": dfEvals,
 			"what": "conversion.DecodeFrom (the entry point bus/proxy.go uses for replies) over 4 wire/destination type pairs holding maps and slices, every ordered history of <= 3 sources out of 3-5 per pair, each call into a fresh destination; the result of every call must be what ConvertFrom gives for that source alone"},
 		"evaluations":                          total.evals,
